@@ -12,8 +12,11 @@ run_one() {
     if ! git -C /repo apply --check "$patch" 2>/dev/null; then echo "SKIP  $id $(basename "$patch") (does not apply)"; return; fi
     git -C /repo apply "$patch"
     local out rc
+    # the evidence file must keep describing the unchanged tree
+    cp "$ROOT/evidence/$id.json" "$ROOT/evidence/.$id.json.saved" 2>/dev/null
     out=$(VERIF_SEED=${VERIF_SEED:-1} timeout 1800 ./check.sh "$id" quick 2>&1); rc=$?
     git -C /repo checkout -- . ; git -C /repo clean -fdq -- lsp4spl spl_frontend 2>/dev/null
+    [ -f "$ROOT/evidence/.$id.json.saved" ] && mv "$ROOT/evidence/.$id.json.saved" "$ROOT/evidence/$id.json"
     if [ $rc -eq 1 ] && echo "$out" | grep -q "^VIOLATION property=$id"; then
         echo "CAUGHT $id $patch :: $(echo "$out" | grep -m1 'failure:' | cut -c1-160)"
     else
